@@ -38,14 +38,33 @@ import sys
 import weakref
 import zlib
 
-from harness.common import Ctx, Part, lean_batch, load_corpus, pmap
+import time
+
+from harness import common as _common
+from harness.common import Ctx, Infra, Part, load_corpus, pmap
+
+
+def lean_batch(requests: list) -> list:
+    """common.lean_batch, retried while the driver binary is being relinked by a concurrent build."""
+    for attempt in range(8):
+        try:
+            return _common.lean_batch(requests)
+        except (Infra, FileNotFoundError, PermissionError, OSError) as e:
+            if attempt == 7 or not ("not built" in str(e) or isinstance(e, OSError)):
+                raise
+            time.sleep(2.0)
+    raise Infra("model driver unavailable")
+
 
 THEOREMS = [
     "IrVerif.Journal.C20_restore",
-    "IrVerif.Journal.C20_restore_needs_NoReentry",
+    "IrVerif.Journal.C20_restore_active",
+    "IrVerif.Journal.C20_reentry_refused",
+    "IrVerif.Journal.C20_guard_needed",
     "IrVerif.Journal.C20_transparent",
     "IrVerif.Journal.C20_transparent_from_start",
     "IrVerif.Journal.C20_transparent_needs_DetailsOk",
+    "IrVerif.Journal.C20_transparent_needs_NoReentry",
     "IrVerif.Journal.C20_transparent_needs_InitNone",
     "IrVerif.Journal.C20_entries",
     "IrVerif.Journal.C20_entries_active",
@@ -218,8 +237,11 @@ class Tracer:
             cls._inst = Tracer(R)
         return cls._inst
 
-    def begin(self, reg: Registry) -> None:
+    def begin(self, reg: Registry, probe: bool = False) -> None:
         self.events, self.reg, self.owner, self.stack, self.active = [], reg, {}, [], True
+        # probe mode: additionally evaluate, at the point where the wrapper would, the real `details`
+        # expression of every call and note the calls (rank among the start events) where it raises
+        self.probe, self.nstart, self.details_fail = probe, 0, []
 
     def end(self) -> None:
         self.active = False
@@ -245,21 +267,39 @@ class Tracer:
         tattr = SLOT_ATTR[k]
         if tattr is not None:
             self.owner[i] = self.reg.idx(getattr(slf, tattr))
-        self.stack.append((k, i))
+        rank = self.nstart
+        self.nstart += 1
+        self.stack.append((k, i, rank, slf if self.probe else None))
         self.events.append(["start", k, i])
+        if self.probe and SLOT_KIND[k] != "init" and (SLOT_DETAILS[k] is not None or SLOT_KIND[k] == "setter"):
+            try:
+                if SLOT_KIND[k] == "setter":
+                    loc = sys._getframe(1).f_locals
+                    repr(getattr(slf, SLOT_PROP[k]))
+                    repr(loc["value"])
+                else:
+                    loc = sys._getframe(1).f_locals
+                    SLOT_DETAILS[k](slf, *[loc[n] for n in code.co_varnames[1 : code.co_argcount]])
+            except Exception:
+                self.details_fail.append(rank)
 
     def _ret(self, code, _off, rv):
         if not self.active:
             return
-        k, i = self.stack.pop()
+        k, i, rank, slf = self.stack.pop()
         if SLOT_KIND[k] == "init" and rv is not None:
             self.init_nonnone += 1
         self.events.append(["finish", k, i, {"ret": self.val(rv)}])
+        if self.probe and SLOT_KIND[k] == "init" and SLOT_DETAILS[k] is not None:
+            try:
+                SLOT_DETAILS[k](slf)
+            except Exception:
+                self.details_fail.append(rank)
 
     def _unwind(self, code, _off, exc):
         if not self.active or code not in self.R.code2slot:
             return
-        k, i = self.stack.pop()
+        k, i, _rank, _slf = self.stack.pop()
         self.events.append(["finish", k, i, {"raise": exc_code(type(exc).__name__)}])
 
 
@@ -268,6 +308,8 @@ class Tracer:
 SLOT_KIND: list = []
 SLOT_ATTR: list = []  # target attribute for container wrappers, else None
 SLOT_OP: list = []
+SLOT_DETAILS: list = []  # the real `details_func` of the wrapper (None for setter wrappers)
+SLOT_PROP: list = []  # `property_name` of setter wrappers
 
 
 def load_slot_table(R: Real) -> list:
@@ -282,6 +324,9 @@ def load_slot_table(R: Real) -> list:
             op = cells.get("operation", "init" if kind == "init" else "")
             attr = cells.get("target_attr") or cells.get("property_name") or ""
             rows.append([key, kind or "?", op, attr])
+            SLOT_DETAILS.append(cells.get("details_func"))
+            SLOT_PROP.append(cells.get("property_name"))
+    del SLOT_DETAILS[: -len(rows)], SLOT_PROP[: -len(rows)]
     SLOT_KIND[:] = [r[1] for r in rows]
     SLOT_ATTR[:] = [r[3] if r[1] == "container" else None for r in rows]
     SLOT_OP[:] = [r[2] for r in rows]
@@ -289,6 +334,21 @@ def load_slot_table(R: Real) -> list:
 
 
 # --------------------------------------------------------------------------- op interpreter
+
+
+class BadRepr:
+    """A user object whose repr raises (makes a wrapper's `details` expression raise)."""
+
+    def __repr__(self):
+        raise RuntimeError("repr of a user object fails")
+
+
+BAD = BadRepr()
+BAD_NAME = "<<bad-repr>>"
+
+
+def nm(x):
+    return BAD if x == BAD_NAME else x
 
 
 class UserBoom(Exception):
@@ -343,7 +403,7 @@ def exec_op(env: Env, op: dict):
         shape = ir.Shape(op["shape"]) if op.get("shape") is not None else None
         typ = ir.TensorType(ir.DataType(op["dtype"])) if op.get("dtype") is not None else None
         cv = env.tensors[op["const"]] if op.get("const") is not None else None
-        v = ir.Value(name=op.get("name"), shape=shape, type=typ, const_value=cv)
+        v = ir.Value(name=nm(op.get("name")), shape=shape, type=typ, const_value=cv)
         env.add(env.values, v)
         return v
     if o == "tensor":
@@ -376,7 +436,7 @@ def exec_op(env: Env, op: dict):
             op.get("domain", ""), op["op_type"], env.vs(op["inputs"]),
             [env.attrs[i] for i in op.get("attrs", [])],
             num_outputs=op.get("num_outputs"), outputs=outs, graph=graph,
-            name=op.get("name"), version=op.get("version"), overload=op.get("overload", ""),
+            name=nm(op.get("name")), version=op.get("version"), overload=op.get("overload", ""),
         )
         env.add_node(n)
         return n
@@ -505,10 +565,10 @@ def exec_op(env: Env, op: dict):
             return g.register_initializer(env.v(op["v"]))
     # ---- setters
     if o == "v_name":
-        env.values[op["v"]].name = op["s"]
+        env.values[op["v"]].name = nm(op["s"])
         return None
     if o == "n_set":
-        setattr(env.nodes[op["n"]], op["field"], op["s"])
+        setattr(env.nodes[op["n"]], op["field"], nm(op["s"]))
         return None
     if o == "n_graph":
         env.nodes[op["n"]].graph = None if op["g"] is None else env.graphs[op["g"]]
@@ -617,10 +677,6 @@ def snapshot(env: Env) -> dict:
 
 # --------------------------------------------------------------------------- history generator
 
-# forms that the main random stream leaves out while the corresponding known defect is present in
-# /repo (decided at run time by running the witness; the witness itself is always checked)
-AVOID = {"node_graph_arg_in_journal": False}
-
 NAMES = ["a", "b", "val_0", "val_1", "w", "node_Add_0", "", "x"]
 OPTYPES = ["Add", "Mul", "Relu", "Identity"]
 
@@ -689,7 +745,7 @@ class Gen:
             elif x < 0.4:
                 cand = [i for i, v in enumerate(e.values) if v.producer() is None and not v.is_graph_input() and not v.is_initializer()]
                 op["outputs"] = r.sample(cand, min(len(cand), r.randint(0, 2))) if not bad else self.pvs(1, 2, True)
-            if r.random() < 0.45 and not (in_journal and AVOID["node_graph_arg_in_journal"]):
+            if r.random() < 0.45:
                 op["graph"] = g if not (e.functions and r.random() < 0.2) else ["f", r.randrange(len(e.functions))]
             if r.random() < 0.4:
                 op["name"] = r.choice(NAMES)
@@ -877,6 +933,9 @@ class Gen:
         for _ in range(n_top):
             body, _ = self.gen_blocks(0, (), self.rng.randint(1, 6), True)
             top.append({"t": "try", "body": body})
+        if self.rng.random() < 0.15:  # the last part is not protected: an exception ends the history
+            body, _ = self.gen_blocks(0, (), self.rng.randint(1, 6), True)
+            top.extend(body)
         return {"nj": self.nj, "blocks": top}
 
 
@@ -886,8 +945,8 @@ class Gen:
 class Runner:
     """Executes a block-structured history on the real code, with real `with` / `try` statements."""
 
-    def __init__(self, R: Real, case: dict, journaled: bool):
-        self.R, self.case, self.journaled = R, case, journaled
+    def __init__(self, R: Real, case: dict, journaled: bool, probe: bool = False):
+        self.R, self.case, self.journaled, self.probe = R, case, journaled, probe
         self.env = Env(R)
         self.reg = Registry()
         self.tr = Tracer.get(R)
@@ -895,9 +954,8 @@ class Runner:
         self.outcomes: list = []  # per executed op: [seq, "ret", canon] | [seq, "raise", type name]
         self.slices: dict[int, tuple] = {}
         self.restore_failures: list = []
-        self.active: list[int] = []
         self.top_exc = None
-        self.enter_rejected = 0
+        self.enter_refused = 0
         # static (pre-order) number of every operation of the history
         self.seq_of: dict[int, int] = {}
 
@@ -911,7 +969,7 @@ class Runner:
         number(case["blocks"])
 
     def run(self) -> None:
-        self.tr.begin(self.reg)
+        self.tr.begin(self.reg, self.probe)
         try:
             try:
                 self.blocks(self.case["blocks"])
@@ -921,6 +979,7 @@ class Runner:
             self.events = self.tr.events
             self.owner = dict(self.tr.owner)
             self.init_nonnone = self.tr.init_nonnone
+            self.details_fail = sorted(self.tr.details_fail)
             self.tr.end()
 
     def blocks(self, blocks: list) -> None:
@@ -944,27 +1003,23 @@ class Runner:
         R = self.R
         before = R.table()
         cur_before = R.J.get_current_journal()
-        reentry = j in self.active
-        self.active.append(j)
-        self.tr.events.append(["enter", j])
-        started = False
+        entered = False
         try:
             with self.journals[j]:
-                started = True
+                entered = True
+                self.tr.events.append(["enter", j])  # __enter__ makes no instrumented call
                 self.blocks(b["body"])
-        except RuntimeError:
-            if reentry and not started:
-                self.enter_rejected += 1  # an implementation may refuse to enter an active journal
-            raise
         finally:
-            self.tr.events.append(["exit", j])
-            self.active.pop()
+            if entered:
+                self.tr.events.append(["exit", j])
+            else:
+                self.enter_refused += 1
             after = R.table()
             diff = [R.KEYS[k] for k, (x, y) in enumerate(zip(before, after)) if x is not y]
             if R.J.get_current_journal() is not cur_before:
                 diff.append("current-journal")
             if diff:
-                self.restore_failures.append({"j": j, "reentry": reentry or j in self.active, "diff": diff[:6], "n": len(diff)})
+                self.restore_failures.append({"j": j, "diff": diff[:6], "n": len(diff)})
 
     def op(self, b: dict) -> None:
         seq = self.seq_of[id(b)]
@@ -1107,6 +1162,9 @@ def run_case(ctx, case: dict, stream: str) -> tuple:
     R = Real.get()
     if R.pristine_problems():
         R.repair()
+    # A history that enters an active journal again is outside the domain of "transparent" (that
+    # __enter__ is refused with RuntimeError); restore / entries / no-strong-ref and the model
+    # correspondence still apply to it.
     reentry = has_reentry(case["blocks"])
     plain = Runner(R, case, journaled=False)
     plain.run()
@@ -1122,67 +1180,69 @@ def run_case(ctx, case: dict, stream: str) -> tuple:
     ctx.case(
         case, nontrivial=nops > 0, sample={"stream": stream, "case": case} if nops <= 6 else None,
         stream=stream, depth=depth_of(case["blocks"]), ops=min(nops // 5 * 5, 40),
-        raised=min(raised, 5), top_exc=jr.top_exc is not None,
+        raised=min(raised, 5), top_exc=jr.top_exc is not None, reentry=reentry,
     )
     for o in jr.outcomes:
         ctx.count(f"outcome={o[1]}")
     for ev in jr.events:
         if ev[0] == "start":
             ctx.count("slot=" + R.KEYS[ev[1]])
-    sig = "reenter-active-journal" if reentry else stream
+    if jr.enter_refused:
+        ctx.count("enter-refused", jr.enter_refused)
+    sig = stream
     opaque = False
-    rejected = reentry and jr.enter_rejected > 0
-    if rejected:
-        # the implementation refused the nested __enter__ of an active journal (RuntimeError): the
-        # history is outside the property's domain; only restoration is checked for it
-        ctx.count("reentry-rejected-by-implementation")
-        opaque = True
 
     # ---------------- oracle: transparent
-    if rejected:
-        pass
-    elif plain.outcomes != jr.outcomes or plain.top_exc != jr.top_exc:
-        opaque = True
-        first = next((i for i, (a, b) in enumerate(zip(plain.outcomes, jr.outcomes)) if a != b), min(len(plain.outcomes), len(jr.outcomes)))
-        po, jo = plain.outcomes[first : first + 1], jr.outcomes[first : first + 1]
-        if po and jo and po[0][0] == jo[0][0]:
-            op = op_by_seq(case["blocks"], po[0][0])
-            sig = f"{sig}:{op['op']}"
-            if op["op"] == "node" and op.get("graph") is not None and po[0][1] == "ret" and jo[0][1:] == ["raise", "AttributeError"]:
-                sig = "node-ctor-graph-arg-in-journal"
-        ctx.fail(f"{sig}/transparent-outcome", "results or exceptions differ inside a journal",
-                 {"case": case, "first": first, "plain": po, "journaled": jo})
-    calls_p = canon_forest(forest([e for e in plain.events if e[0] in ("start", "finish")]), R)
-    calls_j = canon_forest(forest([e for e in jr.events if e[0] in ("start", "finish")]), R)
-    if calls_p != calls_j and not rejected:
-        opaque = True
-        ctx.fail(f"{sig}/transparent-calls", "the original functions executed differ inside a journal", {"case": case})
-    if snap_plain != snap_j and not rejected:
-        opaque = True
-        keys = [k for k in snap_plain if snap_plain[k] != snap_j[k]]
-        ctx.fail(f"{sig}/transparent-state", "IR state differs after the same history inside a journal", {"case": case, "differs": keys})
+    if not reentry:
+        if plain.outcomes != jr.outcomes or plain.top_exc != jr.top_exc:
+            opaque = True
+            first = next((i for i, (a, b) in enumerate(zip(plain.outcomes, jr.outcomes)) if a != b), min(len(plain.outcomes), len(jr.outcomes)))
+            po, jo = plain.outcomes[first : first + 1], jr.outcomes[first : first + 1]
+            osig = sig
+            if po and jo and po[0][0] == jo[0][0]:
+                osig = f"{sig}:{op_by_seq(case['blocks'], po[0][0])['op']}"
+            ctx.fail(f"{osig}/transparent-outcome", "results or exceptions differ inside a journal",
+                     {"case": case, "first": first, "plain": po, "journaled": jo})
+        calls_p = canon_forest(forest([e for e in plain.events if e[0] in ("start", "finish")]), R)
+        calls_j = canon_forest(forest([e for e in jr.events if e[0] in ("start", "finish")]), R)
+        if calls_p != calls_j:
+            opaque = True
+            ctx.fail(f"{sig}/transparent-calls", "the original functions executed differ inside a journal", {"case": case})
+        if snap_plain != snap_j:
+            opaque = True
+            keys = [k for k in snap_plain if snap_plain[k] != snap_j[k]]
+            ctx.fail(f"{sig}/transparent-state", "IR state differs after the same history inside a journal", {"case": case, "differs": keys})
+        if jr.enter_refused:
+            ctx.fail(f"{sig}/enter-refused", "__enter__ of a journal that is not active was refused", {"case": case})
     if plain.init_nonnone or jr.init_nonnone:
         ctx.fail(f"{sig}/init-returns-non-None", "an instrumented constructor returned a value", {"case": case})
+    # ---------------- oracle: DetailsOk (the hypothesis of C20_transparent, on the real details lambdas)
+    pr = Runner(R, case, journaled=False, probe=True)
+    pr.run()
+    if pr.details_fail:
+        starts = [e for e in pr.events if e[0] == "start"]
+        keys = sorted({R.KEYS[starts[r][1]] for r in pr.details_fail})
+        ctx.fail(f"{sig}/details-expression-raises:{','.join(keys)}",
+                 "a wrapper's details expression raises on a state reached by the history (it would abort the call inside a journal)",
+                 {"case": case, "calls": pr.details_fail[:5]})
+    del pr
     # ---------------- oracle: restore
     for f in jr.restore_failures:
-        s = "reenter-active-journal" if (f["reentry"] or reentry) else sig
-        ctx.fail(f"{s}/restore", f"class attributes not restored after leaving `with journal` ({f['n']} differ)", {"case": case, **f})
+        ctx.fail(f"{sig}/restore", f"class attributes not restored after leaving `with journal` ({f['n']} differ)", {"case": case, **f})
     if left:
-        s = "reenter-active-journal" if reentry else sig
-        ctx.fail(f"{s}/restore-final", "classes not as before after the history", {"case": case, "left": left[:8]})
+        ctx.fail(f"{sig}/restore-final", "classes not as before after the history", {"case": case, "left": left[:8]})
     # ---------------- oracle: entries
-    if not reentry:  # (with re-entry the code records twice; no claim is made)
-        for j, journal in enumerate(jr.journals):
-            real = []
-            for e in journal.entries:
-                o = e.ref() if e.ref is not None else None
-                idx = jr.reg.ids.get(id(o), -1) if o is not None else -1
-                ok_cls = o is not None and e.class_name == type(o).__name__ and e.class_ is type(o) and e.object_id == id(o)
-                real.append([e.operation, idx if ok_cls else -2])
-            exp = expected_entries(jr.events, jr.owner, j)
-            if real != exp:
-                ctx.fail(f"{sig}/entries", "journal entries are not exactly the instrumented calls executed while entered",
-                         {"case": case, "journal": j, "real": real[:40], "expected": exp[:40]})
+    for j, journal in enumerate(jr.journals):
+        real = []
+        for e in journal.entries:
+            o = e.ref() if e.ref is not None else None
+            idx = jr.reg.ids.get(id(o), -1) if o is not None else -1
+            ok_cls = o is not None and e.class_name == type(o).__name__ and e.class_ is type(o) and e.object_id == id(o)
+            real.append([e.operation, idx if ok_cls else -2])
+        exp = expected_entries(jr.events, jr.owner, j)
+        if real != exp:
+            ctx.fail(f"{sig}/entries", "journal entries are not exactly the instrumented calls executed while entered",
+                     {"case": case, "journal": j, "real": real[:40], "expected": exp[:40]})
     # ---------------- correspondence with the model
     req = {"m": "journal.run", "fuel": FUEL, "nj": case["nj"],
            "owner": sorted([a, b] for a, b in jr.owner.items()),
@@ -1195,11 +1255,11 @@ def run_case(ctx, case: dict, stream: str) -> tuple:
         "exc": None if jr.top_exc is None else exc_code(jr.top_exc),
         "trace": jr.events,
         "entries": entries_real,
-        "table": None,  # filled by the caller of the model (needs journals list)
+        "active": [bool(getattr(j, "_active", False)) for j in jr.journals],
+        "left": left,
+        "opaque": opaque,
+        "reentry": reentry,
     }
-    # final table of the journaled run was read in pristine_problems(); decode what was left
-    impl["left"] = left
-    impl["opaque"] = opaque
     wrs = []
     for o in jr.reg.objs:
         try:
@@ -1224,11 +1284,15 @@ def check_model(ctx, case: dict, req: dict, impl: dict, ans: dict, sig: str) -> 
         return
     m_entries = [[[e[1], e[2].get("weak", -9)] for e in es] for es in mj["entries"]]
     m_expected = [[[e[1], e[2].get("weak", -9)] for e in es] for es in mj["expected"]]
+    # the exception of a refused __enter__ is RuntimeError in the code, `enterExn` in the model
+    m_log = [({"raise": exc_code("RuntimeError")} if o == {"raise": 2} else o) for o in mj["log"]]
+    m_exc = exc_code("RuntimeError") if mj["exc"] == 2 else mj["exc"]
     for what, a, b in (
-        ("outcomes of the operations", mj["log"], impl["log"]),
-        ("exception leaving the history", mj["exc"], impl["exc"]),
+        ("outcomes of the operations", m_log, impl["log"]),
+        ("exception leaving the history", m_exc, impl["exc"]),
         ("order of original functions / enter / exit", mj["trace"], impl["trace"]),
         ("journal entries", m_entries, impl["entries"]),
+        ("active flags after the history", mj["active"], impl["active"]),
     ):
         if a != b:
             ctx.disagree(f"{what}: model != implementation", {"case": case, "stream": sig}, a if len(str(a)) < 1500 else str(a)[:1500], b if len(str(b)) < 1500 else str(b)[:1500])
@@ -1238,9 +1302,11 @@ def check_model(ctx, case: dict, req: dict, impl: dict, ans: dict, sig: str) -> 
     # model-internal consistency that the theorems promise (cheap re-check on the concrete run)
     if mj["held"]:
         ctx.disagree("model entry holds a strong reference", {"case": case}, mj["held"], None)
-    if mj["log"] != mp["log"] or mj["ir"] != mp["ir"] or mj["exc"] != mp["exc"]:
+    if not restored_model:
+        ctx.disagree("model: classes not restored (contradicts C20_restore)", {"case": case}, mj["table"][:2], None)
+    if not impl["reentry"] and (mj["log"] != mp["log"] or mj["ir"] != mp["ir"] or mj["exc"] != mp["exc"]):
         ctx.disagree("model: journaled and plain runs differ (contradicts C20_transparent)", {"case": case}, mj["log"], mp["log"])
-    if sig != "reenter-active-journal" and m_entries != m_expected:
+    if m_entries != m_expected:
         ctx.disagree("model: entries != expectedFor (contradicts C20_entries)", {"case": case}, m_entries, m_expected)
 
 
@@ -1249,7 +1315,8 @@ def gc_check(ctx, case, journals, wrs, n_entries, sig) -> None:
     gc.collect()
     alive = [type(w()).__name__ for w in wrs if w() is not None]
     stale = sum(1 for j in journals for e in j.entries if e.ref is not None and e.ref() is not None)
-    assert sum(len(j.entries) for j in journals) == n_entries
+    if sum(len(j.entries) for j in journals) != n_entries:
+        ctx.fail(f"{sig}/records-after-exit", "a journal kept receiving entries after it was left", {"case": case})
     if alive or stale:
         ctx.fail(f"{sig}/strong-ref", "IR objects stay alive while only the journal entries are kept",
                  {"case": case, "alive": alive[:10], "entries_with_live_ref": stale})
@@ -1276,12 +1343,12 @@ def ctl_real(R: Real, nj: int, evs: list) -> list:
     out = []
     for e in evs:
         j = journals[e["j"]]
+        refused = False
         if e["enter"]:
             try:
                 j.__enter__()
             except RuntimeError:
-                R.repair()
-                return None  # re-entry refused by the implementation
+                refused = True  # this journal object is already active
         else:
             try:
                 j.__exit__(None, None, None)
@@ -1291,6 +1358,8 @@ def ctl_real(R: Real, nj: int, evs: list) -> list:
         out.append({
             "table": R.decode_table(R.table(), journals),
             "current": next((i for i, x in enumerate(journals) if x is cur), None),
+            "refused": refused,
+            "active": [bool(getattr(jj, "_active", False)) for jj in journals],
             "previous": [next((i for i, x in enumerate(journals) if x is jj._previous_journal), None) for jj in journals],
             "captured": [R.decode_table([jj._original_methods[k] for k in R.KEYS], journals) if jj._original_methods else None for jj in journals],
         })
@@ -1320,9 +1389,6 @@ def ctl_stream(ctx, seqs: list, nj: int, label: str) -> None:
         real = ctl_real(R, nj, evs)
         proper = proper_nesting(evs)
         ctx.case(["ctl", nj, evs], nontrivial=len(evs) > 0, stream=label, ctl_len=len(evs), proper=proper)
-        if real is None:
-            ctx.count("ctl-reentry-rejected-by-implementation")
-            continue
         if ans.get("r") != real:
             k = next((i for i, (a, b) in enumerate(zip(ans.get("r", []), real)) if a != b), -1)
             ctx.disagree("enter/exit: class table / current / previous / captured: model != implementation",
@@ -1382,75 +1448,82 @@ WITNESS_D71 = {"nj": 1, "blocks": [
 
 
 def witnesses(ctx) -> None:
-    """Known-defect witnesses: always evaluated by the oracle (a fixed defect simply passes)."""
-    probe = Part()
-    process_cases(probe, [WITNESS_D70], "witness")
-    AVOID["node_graph_arg_in_journal"] = any(f["signature"].startswith("node-ctor-graph-arg-in-journal") for f in probe["failures"])
-    ctx.merge(probe)
-    process_cases(ctx, [WITNESS_D71], "witness")
-    if AVOID["node_graph_arg_in_journal"]:
-        ctx.notes.append("known defect present: Node(..., graph=g) inside a journal raises AttributeError; the random stream "
-                         "creates nodes with graph= only outside journals (inside: Node(...) then graph.append)")
-        d70_model_check(ctx)
+    """The inputs on which /repo used to violate the property (D70: Node(..., graph=g) inside a journal
+    raised AttributeError; D71: entering an active journal again left every class wrapped)."""
+    process_cases(ctx, [WITNESS_D70, WITNESS_D71], "witness")
 
 
-def d70_model_check(ctx) -> None:
-    """While D70 is present: the model explains it.  The un-journaled call tree of the witness plus
-    'the details expression of the Graph.append call made from inside Node.__init__ raises' makes the
-    model predict exactly what the real journaled run does (which operation raises, which original
-    functions still run, which entries exist)."""
+def bad_repr_cases() -> list:
+    """Histories in which a user object's repr raises, at nesting depth 1-3: the only way (once D70 is
+    repaired) to make a wrapper's `details` expression raise.  Outside the domain of `transparent`
+    (DetailsOk fails by the user's doing); used to tie the model's details branch to the code."""
+    cases = []
+    forms = [
+        [{"op": "node", "op_type": "Relu", "inputs": [0], "name": "n"}, {"op": "n_set", "n": 0, "field": "name", "s": BAD_NAME}],
+        [{"op": "value", "name": BAD_NAME}],
+        [{"op": "v_name", "v": 0, "s": BAD_NAME}],
+        [{"op": "node", "op_type": "Relu", "inputs": [0], "name": BAD_NAME}],
+        [{"op": "node", "op_type": "Relu", "inputs": [0], "name": BAD_NAME, "graph": 0}],
+    ]
+    for depth in (1, 2, 3):
+        for form in forms:
+            body = [{"t": "op", "op": o} for o in form] + [{"t": "op", "op": {"op": "g_sort", "g": 0}}]
+            for d in reversed(range(depth)):
+                body = [{"t": "op", "op": {"op": "value", "name": f"v{d}"}}, {"t": "with", "j": d, "body": body}]
+            setup = [{"t": "op", "op": {"op": "value", "name": "x"}},
+                     {"t": "op", "op": {"op": "graph", "inputs": [0], "outputs": [], "nodes": [], "name": "g"}}]
+            cases.append({"nj": 3, "blocks": [{"t": "try", "body": setup}, {"t": "try", "body": body}]})
+    # a node created outside the journal with a bad name, appended inside: the method wrapper's details
+    cases.append({"nj": 1, "blocks": [
+        {"t": "try", "body": [{"t": "op", "op": {"op": "value", "name": "x"}},
+                              {"t": "op", "op": {"op": "graph", "inputs": [0], "outputs": [], "nodes": [], "name": "g"}},
+                              {"t": "op", "op": {"op": "node", "op_type": "Relu", "inputs": [0], "name": BAD_NAME}}]},
+        {"t": "try", "body": [{"t": "with", "j": 0, "body": [{"t": "op", "op": {"op": "g_append", "g": 0, "n": 0}}]}]}]})
+    return cases
+
+
+def details_stream(ctx) -> None:
+    """The model, given the un-journaled call tree plus *which details expressions raise* (found by
+    evaluating the real details lambdas in a probing un-journaled run), must predict the real
+    journaled run: which operation raises, which originals still run, which entries exist."""
     R = Real.get()
-    case = WITNESS_D70
-    plain = Runner(R, case, journaled=False)
-    plain.run()
-    jr = Runner(R, case, journaled=True)
-    jr.run()
-    if R.pristine_problems():
-        R.repair()
-    # ids as the driver assigns them: pre-order over all call trees of the history
-    ids, fail = [0], []
-    node_init, g_append = R.KEYS.index("Node.__init__"), R.KEYS.index("Graph.append")
-
-    def walk(trees, inside_init_of):
-        for t in trees:
-            my = ids[0]
-            ids[0] += 1
-            if t["k"] == g_append and inside_init_of is not None:
-                fail.append(my)
-            walk(t["steps"], t["self"] if t["k"] == node_init else None)
-
-    blocks = lean_blocks(case["blocks"], plain, [0])
-
-    def all_ops(bs):
-        for b in bs:
-            if b["t"] == "op":
-                yield b
-            else:
-                yield from all_ops(b["body"])
-
-    for b in all_ops(blocks):
-        walk(b["steps"], None)
-    req = {"m": "journal.run", "fuel": FUEL, "nj": 1, "owner": sorted([a, b] for a, b in plain.owner.items()),
-           "block": blocks, "details_fail": fail}
-    ans = lean_batch([req])[0]
-    ctx.case(["d70-model", case], sample={"stream": "d70-model", "details_fail": fail}, stream="d70-model")
-    if "err" in ans:
-        ctx.disagree("model driver error: " + str(ans["err"]), case, ans, None)
-        return
-    mj = ans["journaled"]
-
-    def shape(out):
-        return "raise" if "raise" in out else "ret"
-
-    m_log = [shape(o) for o in mj["log"]]
-    r_log = [o[1] for o in jr.outcomes]
-    m_trace = [[e[0], e[1]] + ([e[2], shape(e[3])] if e[0] == "finish" else e[2:]) for e in mj["trace"]]
-    r_trace = [[e[0], e[1]] + ([e[2], shape(e[3])] if e[0] == "finish" else e[2:]) for e in jr.events]
-    m_entries = [[e[1], e[2].get("weak")] for e in mj["entries"][0]]
-    r_entries = [[e.operation, jr.reg.ids.get(id(e.ref()), -1)] for e in jr.journals[0].entries]
-    for what, a, b in (("outcomes", m_log, r_log), ("originals executed", m_trace, r_trace), ("entries", m_entries, r_entries)):
-        if a != b:
-            ctx.disagree(f"D70 witness, {what}: model with a raising details expression != implementation", case, a, b)
+    reqs, impls, cases = [], [], bad_repr_cases()
+    for case in cases:
+        pr = Runner(R, case, journaled=False, probe=True)
+        pr.run()
+        jr = Runner(R, case, journaled=True)
+        jr.run()
+        left = R.pristine_problems()
+        if left:
+            R.repair()
+            ctx.fail("bad-repr/restore-final", "classes not as before after a history whose details raise", {"case": case, "left": left[:6]})
+        for f in jr.restore_failures:
+            ctx.fail("bad-repr/restore", "class attributes not restored after leaving `with journal`", {"case": case, **f})
+        reqs.append({"m": "journal.run", "fuel": FUEL, "nj": case["nj"], "owner": sorted([a, b] for a, b in pr.owner.items()),
+                     "block": lean_blocks(case["blocks"], pr, [0]), "details_fail": pr.details_fail})
+        impls.append({
+            "log": [o[1] for o in jr.outcomes],
+            "trace": [[e[0], e[1]] + ([e[2], "raise" if "raise" in e[3] else "ret"] if e[0] == "finish" else e[2:]) for e in jr.events],
+            "entries": [[[e.operation, jr.reg.ids.get(id(e.ref()), -1)] for e in j.entries] for j in jr.journals],
+            "nfail": len(pr.details_fail),
+        })
+        del pr, jr
+    for case, impl, ans in zip(cases, impls, lean_batch(reqs)):
+        ctx.case(["bad-repr", case], stream="bad-repr", details_fail=min(impl["nfail"], 3))
+        if "err" in ans:
+            ctx.disagree("model driver error: " + str(ans["err"]), case, ans, None)
+            continue
+        mj = ans["journaled"]
+        m = {
+            "log": ["raise" if "raise" in o else "ret" for o in mj["log"]],
+            "trace": [[e[0], e[1]] + ([e[2], "raise" if "raise" in e[3] else "ret"] if e[0] == "finish" else e[2:]) for e in mj["trace"]],
+            "entries": [[[e[1], e[2].get("weak")] for e in es] for es in mj["entries"]],
+        }
+        for what in ("log", "trace", "entries"):
+            if m[what] != impl[what]:
+                ctx.disagree(f"details raise, {what}: model != implementation", {"case": case}, m[what], impl[what])
+        if impl["nfail"] == 0:
+            ctx.disagree("bad-repr case in which no details expression raised (generator bug)", case, None, None)
 
 
 def process_cases(ctx, cases: list, stream: str) -> None:
@@ -1508,6 +1581,7 @@ def run(ctx: Ctx) -> None:
     ctl_stream(ctx, list(all_ctl_sequences(3, 3)), 3, "ctl-exhaustive")
     ctx.exhaustive_scopes.append("all __enter__/__exit__ sequences of length <= 3 over 3 journal objects")
     process_cases(ctx, skeleton_cases(), "skeleton")
+    details_stream(ctx)
     ctx.exhaustive_scopes.append("nesting depth 0-3 x exception thrown at no level / each level x thrown by user code / by a rejected IR operation")
     # random histories, sharded
     shards = 16
